@@ -369,6 +369,7 @@ func (p *Parser) parseHexString() (core.Object, error) {
 		if p.pos >= len(p.data) || p.data[p.pos] == '>' {
 			// Odd number of digits - assume trailing 0
 			result.WriteByte(hexValue(c) << 4)
+			p.pos++ // consume '>'
 			break
 		}
 
@@ -378,6 +379,7 @@ func (p *Parser) parseHexString() (core.Object, error) {
 			p.skipWhitespace()
 			if p.pos >= len(p.data) || p.data[p.pos] == '>' {
 				result.WriteByte(hexValue(c) << 4)
+				p.pos++ // consume '>'
 				break
 			}
 			c2 = p.data[p.pos]
